@@ -451,6 +451,52 @@ def run(tier):
                          "metadata is not read under that name" % sym)
             else:
                 rep.ok("<entry>_%s is exported and read" % sym, sample=False)
+    # ---------------- R4 every listed parameter has a default value the reader can find
+    HYPS = ("AxisymmetricalGeneralisedPlaneStrain", "AxisymmetricalGeneralisedPlaneStress", "Axisymmetrical", "PlaneStress", "PlaneStrain",
+            "GeneralisedPlaneStrain", "Tridimensional")
+    spec_path = os.path.join(VERIF, "corpus/meta/VerifMetaSpec.mfront")
+    src3, inc3 = gencheck.generate([spec_path], os.path.join(OUT, "C45", "genspec"))
+    # the reader tries <entry>_<hypothesis>_<p>_ParameterDefaultValue, then <entry>_<p>_ParameterDefaultValue: both shapes must be in its table
+    for tail in ("_Tridimensional_x_ParameterDefaultValue", "_x_ParameterDefaultValue"):
+        if not any(rx.match(tail) for rx, s_, t_ in compiled):
+            rep.fail("UNREAD@<entry>%s" % tail, "no symbol-name expression of ExternalLibraryManager has the shape <entry>%s any more" % tail)
+    for entry, S, I in [(e_, src, inc) for e_, _p in corpus] + [("VerifMetaSpec", src3, inc3)]:
+        W = writer_symbols(S, I, entry + "_")
+        lists = [(k, v) for k, v in sorted(W.items()) if re.match(r"^%s(_(%s))?_Parameters$" % (entry, "|".join(HYPS)), k)]
+        if not lists:
+            raise AnalysisBroken("%s: no exported list of parameters" % entry)
+        for k, (ty, names, loc) in lists:
+            h = k[len(entry) + 1:-len("_Parameters")].rstrip("_")
+            for nm in names:
+                rep.count("listed parameters with a default value to find")
+                x = re.sub(r"\[(\d+)\]$", r"_mfront_index_\1", nm)
+                cands = (["%s_%s_%s_ParameterDefaultValue" % (entry, h, x)] if h else []) + ["%s_%s_ParameterDefaultValue" % (entry, x)]
+                if any(c_ in W for c_ in cands):
+                    rep.ok("%s lists '%s' and %s is exported" % (k, nm, [c_ for c_ in cands if c_ in W][0]), sample=False)
+                else:
+                    rep.fail("NO-DEFAULT-VALUE@%s#%s" % (k.replace(entry, "<entry>"), nm), "%s: %s lists the parameter '%s' but neither %s is exported: "
+                             "ExternalLibraryManager::get*ParameterDefaultValue fails for it (the parameter cannot be queried or reset)"
+                             % (rel(loc), k, nm, " nor ".join(cands)))
+    # declared values of the fully specialised behaviour, per hypothesis
+    stxt = open(spec_path).read()
+    W = writer_symbols(src3, inc3, "VerifMetaSpec_")
+    shyps = sorted(re.findall(r"\w+", re.search(r"@ModellingHypotheses\s*\{([^}]*)\}", stxt).group(1)))
+    for m in re.finditer(r"@Parameter(?:<(\w+)>)?\s+\w+\s+(\w+)(?:\[(\d+)\])?\s*=\s*(\{[^}]*\}|[-+.\deE]+)\s*;", stxt):
+        hh, nm, arr, val = m.groups()
+        vals = [float(v) for v in re.findall(r"[-+.\deE]+", val)]
+        for h in shyps:
+            if hh and hh != h:
+                continue
+            for i, v in enumerate(vals):
+                x = nm if not arr else "%s_mfront_index_%d" % (nm, i)
+                rep.count("declared values compared")
+                got = W.get("VerifMetaSpec_%s_%s_ParameterDefaultValue" % (h, x)) or W.get("VerifMetaSpec_%s_ParameterDefaultValue" % x)
+                if got is None or got[1] != [v]:
+                    rep.fail("VALUE@VerifMetaSpec_%s_%s_ParameterDefaultValue" % (h, x), "the default value of '%s' for %s is %s in the generated sources; "
+                             "the declaration gives %s" % (x, h, got and got[1], v))
+                else:
+                    rep.ok("VerifMetaSpec %s %s = %s" % (h, x, v), sample=False)
+    rep.floor("listed parameters with a default value to find", 15)
     # ---------------- material property (generic material-property interface): bounds of the inputs
     mp_path = os.path.join(VERIF, "corpus/meta/VerifMetaMP.mfront")
     txt = open(mp_path).read()
@@ -509,7 +555,7 @@ def run(tier):
     rep.floor("getters with a hypothesis-specific name and a fallback", 25)
     rep.floor("exported objects matched by a reader shape", 120)
     rep.floor("declared values compared", 115)
-    rep.assumptions += ["corpus: the two behaviours of corpus/meta and corpus/bounds and the material property of corpus/meta through the generic "
+    rep.assumptions += ["corpus: the three behaviours of corpus/meta and corpus/bounds (one of them with every modelling hypothesis specialised) and the material property of corpus/meta through the generic "
                         "interfaces; other interfaces are not covered", "setParameter versus recompilation is not decided",
                         "shapes are compared up to the entry name prefix; a variable part matches any identifier characters"]
     return rep
